@@ -199,6 +199,8 @@ def main():
     for part in parts:
         if tier == 'quick' and part.get('thorough_only'):
             continue
+        if os.environ.get('VERIF_ONLY_ENGINE') and part['engine'] != os.environ['VERIF_ONLY_ENGINE']:
+            continue      # diagnostic aid only (never used by the registered commands)
         if violations and not os.environ.get('VERIF_ALL_PARTS'):
             report['inconclusive_note'] = 'stopped after the first confirmed violation; parts not run: ' + (part.get('family') or 'mir')
             break
